@@ -3,8 +3,12 @@
    every type (type_*.go), geom/type_geometry.go:AsText/AppendWKT, geom/float_helpers.go:appendFloat.
 
    Text alphabet: a character, or ONE opaque symbol [Num bits] standing for the decimal spelling of
-   the double with these bits.  Spelling and reading of numbers is Go's strconv (an oracle; its
-   round trip is checked by the harness on every float class, not proved here).
+   the double with these bits, or ONE opaque symbol [Bad] standing for a stretch of text on which
+   text/scanner reports a LEXICAL error (a malformed numeric literal such as 09, 1e, 0x, 1__0, or
+   an invalid UTF-8 sequence; NUL is a character of the alphabet and a lexical error, too).
+   Spelling and reading of numbers is Go's strconv (an oracle; its round trip is checked by the
+   harness on every float class, not proved here); which stretches are malformed literals is
+   text/scanner's verdict (an oracle: the harness asks text/scanner itself).
 
    A byte buffer under construction ([]byte with append at the end) is a list with the MOST RECENT
    byte first, so that append is cons and the look-behind of appendWKTEmpty is the head. *)
@@ -15,7 +19,7 @@ Local Open Scope N_scope.
 
 Notation wgeom := (geomT N) (only parsing).
 
-Inductive ch := C (a : ascii) | Num (bits : N).
+Inductive ch := C (a : ascii) | Num (bits : N) | Bad.
 Definition la (x : string) : list ascii := list_ascii_of_string x.
 (* string constants are expanded to character lists at definition time, so that Coq's string type
    does not reach the extracted code *)
@@ -69,6 +73,7 @@ Definition w_empty (dst : buf) : buf :=
     | [] => dst
     | C c :: _ => if Ascii.eqb c "(" || Ascii.eqb c "," || Ascii.eqb c " " then dst else app_ch dst " "%char
     | Num _ :: _ => app_ch dst " "%char          (* last byte is a digit *)
+    | Bad :: _ => app_ch dst " "%char            (* (the writer never produces it) *)
     end in
   app_str dst (L "EMPTY").
 
@@ -154,8 +159,12 @@ Definition append_wkt_any (prefix : list ch) (a : anygeom) : outcome (list ch) :
   Ok (append_wkt prefix (any_value a)).
 
 (* ------------------------------------------------------------------ lexer *)
-(* A token is its text (wkt_lexer.go returns scn.TokenText()), or a number literal. *)
-Inductive tok := T (s : list ascii) | TNum (b : N).
+(* A token is its text (wkt_lexer.go returns scn.TokenText()), or a number literal.  [TBad] is not
+   a token: it marks the place in the stream where wkt_lexer.go:next returns the error text/scanner
+   reported through scn.Error ("invalid token ...").  The Go lexer is lazy; the model lexes up to
+   the first lexical error and leaves the mark there, so that the parser meets the error exactly
+   when (and only if) it asks for that token - as in the code. *)
+Inductive tok := T (s : list ascii) | TNum (b : N) | TBad.
 
 Definition code (c : ascii) : N := N_of_ascii c.
 Definition is_upper (c : ascii) : bool := (65 <=? code c) && (code c <=? 90).
@@ -177,11 +186,13 @@ Definition glue_after (r : list ch) : bool :=
   | [] => false
   | C c :: _ => is_letter c || is_digit c || Ascii.eqb c "."
   | Num b :: _ => b <? wk_two63
+  | Bad :: _ => false
   end.
 
 (* text/scanner with Mode = ScanInts|ScanFloats|ScanIdents on the alphabet WKT uses.
    cur = identifier in progress (reversed).  Err EOther marks texts the opaque-number alphabet
-   cannot express (digits glued to a number symbol, raw digits, non-ASCII). *)
+   cannot express (digits glued to a number symbol, raw digits, non-ASCII).  At a lexical error
+   (NUL, [Bad]) the token stream ends with the mark [TBad]: nothing behind it is ever read. *)
 Fixpoint lex_go (cur : list ascii) (s : list ch) : outcome (list tok) :=
   match s with
   | [] => Ok (flush cur)
@@ -189,7 +200,7 @@ Fixpoint lex_go (cur : list ascii) (s : list ch) : outcome (list tok) :=
       if is_letter c then lex_go (c :: cur) r
       else if is_digit c then
         match cur with [] => Err EOther | _ :: _ => lex_go (c :: cur) r end
-      else if code c =? 0 then Err ESyntax                 (* "invalid character NUL" *)
+      else if code c =? 0 then Ok (flush cur ++ [TBad])    (* "invalid character NUL" *)
       else if 128 <=? code c then Err EOther
       else if Ascii.eqb c "." && (match r with Num _ :: _ => true | _ => false end) then Err EOther
       else
@@ -205,6 +216,7 @@ Fixpoint lex_go (cur : list ascii) (s : list ch) : outcome (list tok) :=
       else                                                  (* "-" then the magnitude *)
         do ts <- lex_go [] r;
         Ok (flush cur ++ T ["-"%char] :: TNum (b - wk_two63) :: ts)
+  | Bad :: _ => Ok (flush cur ++ [TBad])                   (* scn.Error called: next returns the error *)
   end.
 Definition lex (s : list ch) : outcome (list tok) := lex_go [] s.
 
@@ -221,9 +233,11 @@ Definition tbind {A B} (m : TM A) (f : A -> TM B) : TM B := fun ts =>
 Notation "'doT' x <- m ; k" := (tbind m (fun x => k))
   (at level 200, x pattern, m at level 100, k at level 200, right associativity).
 
-(* wkt_lexer.go:next / peek *)
-Definition t_next : TM tok := fun ts => match ts with [] => Err EEOF | t :: r => Ok (t, r) end.
-Definition t_peek : TM tok := fun ts => match ts with [] => Err EEOF | t :: _ => Ok (t, ts) end.
+(* wkt_lexer.go:next / peek: a token, wktUnexpectedEOF (EEOF), or the scanner's error (ESyntax) *)
+Definition t_next : TM tok := fun ts =>
+  match ts with [] => Err EEOF | TBad :: _ => Err ESyntax | t :: r => Ok (t, r) end.
+Definition t_peek : TM tok := fun ts =>
+  match ts with [] => Err EEOF | TBad :: _ => Err ESyntax | t :: _ => Ok (t, ts) end.
 
 Fixpoint leqb (a b : list ascii) : bool :=
   match a, b with
@@ -232,12 +246,12 @@ Fixpoint leqb (a b : list ascii) : bool :=
   | _, _ => false
   end.
 Definition tok_is (x : list ascii) (t : tok) : bool :=
-  match t with T l => leqb l x | TNum _ => false end.
+  match t with T l => leqb l x | TNum _ => false | TBad => false end.
 
 (* nextGeomTag: strings.ToUpper on the type keyword only; "Z" "M" "ZM" compared as they are *)
 Definition next_geom_tag : TM (list ascii * ctype) :=
   doT t <- t_next;
-  let name := match t with T l => map to_upper l | TNum _ => [] end in
+  let name := match t with T l => map to_upper l | TNum _ => [] | TBad => [] end in
   doT p <- t_peek;
   let ct := if tok_is (L "Z") p then XYZ else if tok_is (L "M") p then XYM
             else if tok_is (L "ZM") p then XYZM else XY in
@@ -266,6 +280,7 @@ Definition strconv_parse (t : tok) : outcome N :=
       if leqb u (L "nan") then Ok wk_nan
       else if leqb u (L "inf") || leqb u (L "infinity") then Ok wk_inf
       else Err ESyntax
+  | TBad => Err ESyntax                                      (* never handed out by t_next *)
   end.
 
 (* nextSignedNumericLiteral *)
@@ -390,11 +405,20 @@ Fixpoint parse_geom (fuel : nat) : TM wgeom :=
       end
   end.
 
-(* UnmarshalWKT(..., NoValidate{}): one geometry, then EOF *)
+(* UnmarshalWKT(..., NoValidate{}): one geometry, then
+     if tok, err := p.lexer.next(); err == nil { return wantButGot("EOF", tok) }
+     else if !errors.Is(err, wktUnexpectedEOF) { return err }
+   Only the end-of-input error means success; any other lexer error is returned. *)
+Definition eof_check {A} (a : A) (r : list tok) : outcome A :=
+  match t_next r with
+  | Ok _ => Err ESyntax                                      (* wantButGot("EOF", tok) *)
+  | Err EEOF => Ok a
+  | Err e => Err e
+  | Panic p => Panic p
+  end.
 Definition parse (ts : list tok) : outcome wgeom :=
   match parse_geom (S (List.length ts)) ts with
-  | Ok (g, []) => Ok g
-  | Ok (_, _ :: _) => Err ESyntax                            (* wantButGot("EOF", tok) *)
+  | Ok (g, r) => eof_check g r
   | Err e => Err e
   | Panic p => Panic p
   end.
@@ -481,10 +505,11 @@ Definition toks (sp : spelling) (g : wgeom) : list tok := toks_at sp [] g.
 
 (* Whitespace spellings of a token sequence: every token followed by a run of blanks. *)
 Definition tok_text (t : tok) : list ch :=
-  match t with T l => map C l | TNum b => [Num b] end.
+  match t with T l => map C l | TNum b => [Num b] | TBad => [Bad] end.
 Definition spell (pre : list ascii) (items : list (tok * list ascii)) : list ch :=
   map C pre ++ flat_map (fun it => tok_text (fst it) ++ map C (snd it)) items.
-(* a token the lexer can produce: an identifier, one punctuation character, a non-negative number *)
+(* a token the lexer can produce: an identifier, one punctuation character, a non-negative number
+   (the error mark TBad is not a token) *)
 Definition tok_wf (t : tok) : bool :=
   match t with
   | T [] => false
@@ -495,12 +520,31 @@ Definition tok_wf (t : tok) : bool :=
            | _ :: _ => false
            end
   | TNum b => b <? wk_two63
+  | TBad => false
   end.
 Definition tok_alnum_start (t : tok) : bool :=
-  match t with T (c :: _) => is_letter c | T [] => false | TNum _ => true end.
+  match t with T (c :: _) => is_letter c | T [] => false | TNum _ => true | TBad => false end.
 Definition tok_alnum_end (t : tok) : bool :=
-  match t with T (c :: _) => is_letter c | T [] => false | TNum _ => true end.
+  match t with T (c :: _) => is_letter c | T [] => false | TNum _ => true | TBad => false end.
 Definition tok_dot (t : tok) : bool := match t with T [c] => Ascii.eqb c "." | _ => false end.
+(* a character that ends a word or number and is a token (or a blank) by itself *)
+Definition delim (c : ascii) : bool :=
+  negb (is_letter c) && negb (is_digit c) && negb (code c =? 0) && negb (128 <=? code c) &&
+  negb (Ascii.eqb c ".").
+(* text that cannot continue a word or number standing before it: empty, or starting with a
+   delimiter character or with a lexical error *)
+Definition starts_delim (r : list ch) : bool :=
+  match r with [] => true | C c :: _ => delim c | Num _ :: _ => false | Bad :: _ => true end.
+(* the spelling ends in a word, a number or "." with no blank behind it *)
+Fixpoint ends_open (items : list (tok * list ascii)) : bool :=
+  match items with
+  | [] => false
+  | [(t, w)] => match w with [] => tok_alnum_end t || tok_dot t | _ :: _ => false end
+  | _ :: r => ends_open r
+  end.
+(* the symbols at which the lexer returns its error: NUL, a malformed literal / invalid UTF-8 *)
+Definition lex_error_ch (c : ch) : bool :=
+  match c with C a => code a =? 0 | Num _ => false | Bad => true end.
 (* blanks only; at least one blank where two neighbours would otherwise run together *)
 Fixpoint spell_ok (items : list (tok * list ascii)) : bool :=
   match items with
